@@ -131,10 +131,24 @@ Qed.
 Theorem C10_size_checker : forall courses parts, size_okb courses parts = true -> SizeOK courses parts.
 Proof. exact size_okb_spec. Qed.
 
-Check C10_node_total. Check C10_total. Check C10_size_checker. Check C10_document_valid. Check C10_document_node. Check C10_float_sane_checker. Check C10_node. Check C10_node_class. Check C10_root_wf. Check C10_children_wf. Check C10_search. Check C10_no_failure. Check C10_never_stuck. Check C10_node_noroom.
+(* for documents: what the program accepts (and satisfies the three unchecked clauses) is solved without any worker failing, for every
+   worker count and interleaving -- the size bound is part of check_data_consistency (SimpleValid.accepted_size_ok) *)
+Theorem C10_document_total : forall data ps cs esize shrinkf rooms smin smax k st,
+  SimpleRead.simple_read data = Json.ROk (ps, cs) -> SimpleRead.consistentb ps cs = true -> SimpleValid.unchecked_okb ps = true ->
+  FloatSane (map SimpleValid.to_course cs) esize shrinkf rooms ->
+  SReach (map SimpleValid.to_course cs) (map SimpleValid.to_part ps) esize shrinkf rooms smin smax k st ->
+  EngP2.failed node assignment st = [].
+Proof.
+  intros data ps cs esize shrinkf rooms smin smax k st Hr Hc Hu FS R.
+  apply (C10_total _ _ esize shrinkf rooms smin smax k st (SimpleValid.accepted_valid data ps cs Hr Hc Hu) FS
+           (SimpleValid.accepted_size_ok data ps cs Hr Hc) R).
+Qed.
+
+Check C10_document_total. Check C10_node_total. Check C10_total. Check C10_size_checker. Check C10_document_valid. Check C10_document_node. Check C10_float_sane_checker. Check C10_node. Check C10_node_class. Check C10_root_wf. Check C10_children_wf. Check C10_search. Check C10_no_failure. Check C10_never_stuck. Check C10_node_noroom.
 Print Assumptions C10_node.
 Print Assumptions C10_node_total.
 Print Assumptions C10_total.
+Print Assumptions C10_document_total.
 Print Assumptions C10_document_valid.
 Print Assumptions C10_document_node.
 Print Assumptions C10_node_class.
